@@ -495,7 +495,14 @@ pub fn generate(thorough: bool) -> Vec<Dup> {
         ("X-Amz-SignedHeaders", "host;x-extra".into(), vec!["host".into(), "x-extra".into()]),
         ("X-Amz-Security-Token", "VALID-TOKEN".into(), vec!["DECOY-0".into(), "DECOY-1".into()]),
     ];
-    for (which, (pname, valid, decoys)) in qparams.iter().enumerate() {
+    // (round 14) every decoy set again with EMPTY decoys: "the first value counts" holds for a first value that is
+    // empty too — an empty first occurrence is not skipped in favour of a later non-empty one
+    let empty_decoys: Vec<String> = vec![String::new()];
+    for (which, empty, (pname, valid, decoys0)) in qparams.iter().enumerate().flat_map(|(w, q)| [(w, false, q), (w, true, q)]) {
+        if empty && *pname == "X-Amz-Security-Token" {
+            continue;
+        }
+        let decoys = if empty { &empty_decoys } else { decoys0 };
         for (n, k) in nk() {
             for spread in [false, true] {
                 let mut plan = e2e::base_plan(Carrier::Query);
@@ -531,7 +538,7 @@ pub fn generate(thorough: bool) -> Vec<Dup> {
                 let built = build(&plan);
                 let is_token = *pname == "X-Amz-Security-Token";
                 out.push(Dup {
-                    label: format!("{} x{} valid@{} spread={}", pname, n, k, spread),
+                    label: format!("{} x{} valid@{} spread={}{}", pname, n, k, spread, if empty { " empty-decoys" } else { "" }),
                     wire: WireReq::from_wire(&built.wire),
                     cfg: cfg.clone(),
                     expect_ok: k == 0 || is_token,
@@ -543,7 +550,8 @@ pub fn generate(thorough: bool) -> Vec<Dup> {
         }
     }
     // X-Amz-Signature repeated: first counts (none of them is part of the canonical query)
-    for (n, k) in nk() {
+    // decoy kinds: 0 = sixty-four 0 / f; 1 = empty value; 2 = bare name without '=' (round 14)
+    for (decoy_kind, (n, k)) in (0..3).flat_map(|dk| nk().into_iter().map(move |x| (dk, x))) {
         let plan = e2e::base_plan(Carrier::Query);
         let built = build(&plan);
         let mut w = WireReq::from_wire(&built.wire);
@@ -554,13 +562,17 @@ pub fn generate(thorough: bool) -> Vec<Dup> {
             if i == k {
                 seq.push(valid.clone());
             } else {
-                seq.push(format!("X-Amz-Signature={}", ["0", "f"][d % 2].repeat(64)));
+                seq.push(match decoy_kind {
+                    0 => format!("X-Amz-Signature={}", ["0", "f"][d % 2].repeat(64)),
+                    1 => "X-Amz-Signature=".to_string(),
+                    _ => "X-Amz-Signature".to_string(),
+                });
                 d += 1;
             }
         }
         w.uri = w.uri.replace(&valid, &seq.join("&"));
         out.push(Dup {
-            label: format!("X-Amz-Signature x{} valid@{}", n, k),
+            label: format!("X-Amz-Signature x{} valid@{} decoy-kind={}", n, k, decoy_kind),
             wire: w,
             cfg: cfg.clone(),
             expect_ok: k == 0,
